@@ -37,13 +37,17 @@ BOUNDS = {
     "quick": {"stored events m": "0..3", "appended events n": "1..3",
               "calls (composed)": "<= 3 calls of 1..2 events",
               "values": "reals or NaN (any pattern, incl. all-NaN)",
-              "child": "parent of 3 events, symbolic filter",
+              "child": "parent of 3 events, symbolic filter; hierarchy of "
+                       "depth 2 (root of 3 events, both filters symbolic) "
+                       "over a root feature object that reports its own "
+                       "summaries",
               "replace mode": "real store_feature(mode=replace) over a "
                               "writer-written feature, (m, n) in (2,1) (2,2) "
                               "(1,2)"},
     "thorough": {"stored events m": "0..4", "appended events n": "1..4",
                  "calls (composed)": "<= 4 calls of 1..2 events",
-                 "values": "reals or NaN", "child": "parent of 4 events",
+                 "values": "reals or NaN", "child": "parent of 4 events; depth 2 over a root of 4 "
+                                      "events",
                  "replace mode": "as quick plus (3,2) (2,3)"},
 }
 OUTSIDE = ["floating-point rounding of the running mean (values are exact "
